@@ -417,13 +417,22 @@ def r_leafreg(ctx):
     qr = [s for s in flow.stmts_of(fn, ast.Assign) if isinstance(s.value, ast.Call) and call_name(s.value) == "qr"]
     okq = len(qr) == 1 and any(k.arg == "mode" and is_const(k.value, "r") for k in qr[0].value.keywords)
     if okq:
-        a = src(qr[0].value.args[0]).replace(" ", "")
-        okq = a in ("(np.sqrt(eig_val)*eig_vec).T",)
+        a = qr[0].value.args[0]
+        # transpose of (sqrt(eigenvalues) * eigenvectors), with both names coming from one eigh() of the Gram argument
+        okq = isinstance(a, ast.Attribute) and a.attr == "T" and isinstance(a.value, ast.BinOp) and isinstance(a.value.op, ast.Mult)
+        if okq:
+            sides = [a.value.left, a.value.right]
+            sq = [x for x in sides if isinstance(x, ast.Call) and call_name(x) == "sqrt" and len(x.args) == 1 and isinstance(x.args[0], ast.Name)]
+            ot = [x for x in sides if isinstance(x, ast.Name)]
+            eig = [s2 for s2 in flow.stmts_of(fn, ast.Assign) if isinstance(s2.value, ast.Call) and call_name(s2.value) == "eigh" and isinstance(s2.targets[0], ast.Tuple)]
+            okq = len(sq) == 1 and len(ot) == 1 and len(eig) == 1 and [e.id for e in eig[0].targets[0].elts] == [sq[0].args[0].id, ot[0].id] \
+                and dotted(eig[0].value.args[0]) == params_of(fn)[2]
     ctx.ob("R-LEAFREG", "PEP.%s::factorisation" % fn.name, okq,
            "point coordinates are the triangular factor of (sqrt(eigenvalues) * eigenvectors)^T, so that their inner products reproduce the Gram matrix" if okq else
            "the factor the point coordinates are read from is not qr((sqrt(eig_val) * eig_vec).T, mode='r')", loc(fn, qr[0] if qr else fn))
     clip = [s for s in flow.stmts_of(fn, ast.Assign) if isinstance(s.value, ast.Call) and call_name(s.value) == "maximum"]
-    okc = len(clip) == 1 and [src(a) for a in clip[0].value.args] == ["eig_val", "0"] and dotted(clip[0].targets[0]) == "eig_val"
+    okc = len(clip) == 1 and len(clip[0].value.args) == 2 and is_const(clip[0].value.args[1], 0) and isinstance(clip[0].value.args[0], ast.Name) \
+        and dotted(clip[0].targets[0]) == clip[0].value.args[0].id and clip[0].lineno < (qr[0].lineno if qr else 0)
     if okc:
         conds = flow.conditions_guarding(clip[0])
         okc = all(not _mentions_verbose(t) for t, _, _ in conds)
